@@ -33,6 +33,9 @@ PLANS = {
                 gen=[G("history", 100, 3000, "TraceCursor", "TraceCursor_C16.cfg"),
                      G("seeks", 32, 800, "TraceCursor", "TraceCursor_C16.cfg"),
                      G("big", 16, 200, "TraceCursor", "TraceCursor_C16.cfg")]),
+    "C06": dict(level="model_checking", assumptions=TRUST + ["values of merge calls / outputs are named (source, position) by exact byte equality with the values the sources hold"],
+                mc=[MC("MCMerger", "MCMerger.cfg", workers=8)],
+                gen=[G("merge", 400, 15000, "TraceMerger", "TraceMerger.cfg")]),
     "C09": dict(level="model_checking", assumptions=TRUST + ["independent decoder: sequential walk, codec crates, LEB128 framing parser"],
                 gen=[G("format", 400, 12000, "TraceLayout", "TraceLayout_C09.cfg")]),
     "C15": dict(level="model_checking", assumptions=TRUST + ["independent decoder: sequential walk, codec crates, LEB128 framing parser"],
